@@ -31,7 +31,8 @@ import (
 // the harness runs natively; under the executor sigs.k8s.io/json.UnmarshalStrict
 // is modelled (engine/sinterp/intrinsics_c19.go).
 const (
-	verifBodyFresh   = `{"status":{"n":"fresh"}}`
+	// (numbers travel as the hook wrote them: integral ones stay integers, exactly)
+	verifBodyFresh   = `{"status":{"n":"fresh","i":3,"big":1696400000123456789}}`
 	verifBodyCached  = `{"status":{"n":"cached"}}`
 	verifBodyUnknown = `{"status":{"n":"fresh"},"bogus":1}`
 	verifBodyDup     = `{"status":{},"status":{"n":"fresh"}}`
@@ -53,6 +54,17 @@ func (r *verifReq) GetRootObject() *unstructured.Unstructured { return r.Parent 
 
 type verifResp struct {
 	Status map[string]interface{} `json:"status"`
+}
+
+// verifNumbersExact: the integers of the fresh body arrive as integers with
+// their exact value, in every decoding mode (the status is compared with and
+// written to the parent as decoded: a float where the API server holds an
+// integer never compares equal, and a large one is rounded).
+func verifNumbersExact(r *verifResp, mode string) {
+	i, okI := r.Status["i"].(int64)
+	rt.Assert(okI && i == 3, mode+"/integer-in-status-not-decoded-as-integer")
+	big, okB := r.Status["big"].(int64)
+	rt.Assert(okB && big == 1696400000123456789, mode+"/large-integer-in-status-not-exact")
 }
 
 func (r *verifResp) n() string {
@@ -320,6 +332,9 @@ func VerifC19_StatusGate() {
 	case strict:
 		rt.Cover("strict-wellformed")
 		rt.Assert(err == nil, "strict/rejected-well-formed")
+		if err == nil && !fromCache {
+			verifNumbersExact(&resp, "strict")
+		}
 	case strictErrs:
 		rt.Cover("loose-accepts-malformed")
 		rt.Assert(err == nil, "loose/rejected-unknown-or-duplicate-field")
@@ -335,6 +350,9 @@ func VerifC19_StatusGate() {
 		rt.Assert(err == nil, "call/rejected-good-answer")
 		if err == nil {
 			rt.Assert(resp.n() == want, "call/decoded-body-differs")
+			if !fromCache {
+				verifNumbersExact(&resp, "loose")
+			}
 		}
 	}
 	// a fresh answer carrying an ETag is remembered together with that ETag
